@@ -1,5 +1,6 @@
 """C03 - branches, jumps, call and tail land on their label; the label table is exact."""
 import ast
+import re
 
 from ..core import Report, Finding, AnalysisError
 from ..facts import Facts
@@ -17,6 +18,31 @@ def check_target_wrapping(rep, facts, rule):
     """A branch / jump operand that is not an integer literal is wrapped in %offset by the parser."""
     arms, _ = parse_item_outcomes(facts)
     n = 0
+    # the test that tells an integer literal from a label name: is_int, or a helper that only hands its argument on to it
+    literal_tests = {'is_int'}
+    grew = True
+    while grew:
+        grew = False
+        for fname, f in facts.funcs.items():
+            body = [s_ for s_ in f.body if not (isinstance(s_, ast.Expr) and isinstance(s_.value, ast.Constant))]
+            if fname not in literal_tests and len(body) == 1 and isinstance(body[0], ast.Return) and isinstance(body[0].value, ast.Call) \
+                    and isinstance(body[0].value.func, ast.Name) and body[0].value.func.id in literal_tests and len(f.args.args) == 1 \
+                    and len(body[0].value.args) == 1 and isinstance(body[0].value.args[0], ast.Name) and body[0].value.args[0].id == f.args.args[0].arg:
+                literal_tests.add(fname)
+                grew = True
+    def literal_outcome(c):
+        """True / False: the path condition says the operand is / is not an integer literal; None: the condition is something else."""
+        node, pol = (c[2] if len(c) > 2 else None), c[1]
+        while isinstance(node, ast.UnaryOp) and isinstance(node.op, ast.Not):
+            node, pol = node.operand, not pol
+        if isinstance(node, ast.Call) and isinstance(node.func, ast.Name) and node.func.id in literal_tests:
+            return bool(pol)
+        if not isinstance(node, ast.AST) and any(re.search(r'\b' + re.escape(t) + r'\(', str(c[0])) for t in literal_tests):
+            text, pol = str(c[0]).strip(), c[1]
+            while text.startswith('not '):
+                text, pol = text[4:].strip(), not pol
+            return bool(pol)
+        return None
     for key, test, outcomes in arms:
         if key not in (('table', 'B_TYPE_INSTRUCTIONS'), ('table', 'J_TYPE_INSTRUCTIONS')):
             continue
@@ -25,8 +51,8 @@ def check_target_wrapping(rep, facts, rule):
                 continue
             params = [p for p, _ in facts.init_params(o.cls)]
             imm = o.args[params.index('imm')] if 'imm' in params and params.index('imm') < len(o.args) else None
-            is_int_path = any('is_int' in c[0] and c[1] for c in o.path.conds)
-            label_path = any('is_int' in c[0] and not c[1] for c in o.path.conds)
+            is_int_path = any(literal_outcome(c) is True for c in o.path.conds)
+            label_path = any(literal_outcome(c) is False for c in o.path.conds)
             if label_path:
                 n += 1
                 ok = imm is not None and imm[0] == 'imm' and imm[1][0] == 'list' and len(imm[1][1]) == 2 \
@@ -40,6 +66,14 @@ def check_target_wrapping(rep, facts, rule):
                 rep.check(ok, rule, '{}: label operand parsed as %offset(label)'.format(o.cls),
                           lambda o=o: Finding(rule, 'parse_item', o.node, 'a branch/jump target that is not an integer is not wrapped in %offset', line=o.node.lineno))
             elif not is_int_path:
+                wrapped = imm is not None and imm[0] == 'imm' and imm[1][0] == 'list' and len(imm[1][1]) == 2 and imm[1][1][0] == ('const', '%offset')
+                if wrapped:
+                    continue        # always wrapped: every operand is taken as a label
+                helper_test = lambda node: any(isinstance(x, ast.Call) and isinstance(x.func, ast.Name) and x.func.id in facts.funcs and x.func.id not in literal_tests
+                                               for x in ast.walk(node)) if isinstance(node, ast.AST) else False
+                if any(helper_test(c[2]) for c in o.path.conds if len(c) > 2):
+                    # the path goes through a test that is not recognised as the literal / label classification
+                    raise AnalysisError('parse_item: how the branch / jump operand at line {} is classified into literal offset vs. label is not understood'.format(o.node.lineno))
                 rep.fail(Finding(rule, 'parse_item', o.node, 'branch/jump operand is not classified into literal offset vs. label', line=o.node.lineno))
     rep.count('label-target parse paths', n)
     # pseudo pass: every B/J construction takes %offset of one of the pseudo's operands (or Hi/Lo of it in the far form)
@@ -51,8 +85,13 @@ def check_target_wrapping(rep, facts, rule):
                 f = IS.ctor_fields(facts, val)
                 imm = f.get('imm')
                 m += 1
-                ok = (imm is not None and imm[0] == 'call' and imm[1] == 'parse_immediate' and imm[2][0][0] == 'list'
-                      and imm[2][0][1][0] == ('const', '%offset'))
+                # %offset(operand): parse_immediate(['%offset', x], ..) (list or tuple) or Offset(x) built directly
+                parsed = imm is not None and imm[0] == 'call' and imm[1] == 'parse_immediate' and imm[2] and imm[2][0][0] in ('list', 'tuple') and imm[2][0][1]
+                ok = bool(parsed and imm[2][0][1][0] == ('const', '%offset')) or bool(imm is not None and imm[0] == 'new' and imm[1] == 'Offset')
+                if not ok and not parsed and not (imm is not None and imm[0] == 'new' and imm[1] in facts.classes) and not (imm is not None and is_const(imm)):
+                    # built through something that is not followed: no verdict
+                    raise AnalysisError('transform_pseudo_instructions: the target operand of the {} expansion ({}) is not followed back to a %offset expression'.format(
+                        show(f.get('name')), show(imm)[:60] if imm is not None else 'none'))
                 rep.check(ok, rule, 'pseudo expansion {}: target = %offset(operand)'.format(show(f.get('name'))),
                           lambda node=node, imm=imm: Finding(rule, 'transform_pseudo_instructions', node,
                                                              'a pc-relative expansion does not take %offset of its target operand: {}'.format(show(imm)), line=node.lineno),
@@ -74,27 +113,34 @@ def run(repo, tier):
     rep.not_decided = ['whether a near/far or li size decision taken on pessimistic label offsets is still the right one after labels moved '
                        '(value-dependent; always a safe choice for pure %offset targets because L2 only shrinks distances; a compressed form '
                        'without immediate chosen on such a value is decided by R3.final-immediate)']
-    LB.check_L1(rep, facts, 'L1.establish')
+    # every rule is attempted: a no-verdict in one of them is deferred, so it cannot mask a violation another one establishes
+    rep.attempt(LB.check_L1, rep, facts, 'L1.establish')
+    movers = rep.attempt(LB.label_writing_passes, facts)        # passes ordered before the first one that bakes label values into items
     for compress in (False, True):
-        steps = LR.class_flow(facts, compress)
+        steps = rep.attempt(LR.class_flow, facts, compress) or []
         for name, node, inc, out in steps:
-            pa = LR.pass_analysis(facts, name, frozenset(inc))
-            LR.check_conservation(rep, pa, 'L2', name in LR.LABEL_PASSES_EXPECTED)
+            def conserve(name=name, inc=inc):
+                pa = LR.pass_analysis(facts, name, frozenset(inc))
+                LR.check_conservation(rep, pa, 'L2', movers is None or name in movers)
+            rep.attempt(conserve)
     for fname in ('transform_compressible', 'transform_pseudo_instructions', 'resolve_aligns'):
-        LB.position_starts_at_zero(rep, facts, fname, 'L2.position')
-    LB.check_L4(rep, facts, 'L4')
-    LB.check_L5(rep, facts, 'L5.identity')
-    LB.check_bake_after_mut(rep, facts, 'L3.order')
-    check_target_wrapping(rep, facts, 'R3.target')
-    IS.check_lo_pairing(rep, facts, 'R3.lo-width', 'R3.guard-fits', 'R3.hi-lo-pair')
-    IS.check_auipc(rep, facts, 'R3.auipc-adjust', 'R3.auipc-sibling')
+        rep.attempt(LB.position_starts_at_zero, rep, facts, fname, 'L2.position')
+    rep.attempt(LB.check_L4, rep, facts, 'L4')
+    rep.attempt(LB.check_L5, rep, facts, 'L5.identity')
+    rep.attempt(LB.check_bake_after_mut, rep, facts, 'L3.order')
+    rep.attempt(check_target_wrapping, rep, facts, 'R3.target')
+    rep.attempt(IS.check_lo_pairing, rep, facts, 'R3.lo-width', 'R3.guard-fits', 'R3.hi-lo-pair')
+    rep.attempt(IS.check_auipc, rep, facts, 'R3.auipc-adjust', 'R3.auipc-sibling')
     from ..comprel import CompRel, check_final_immediates
-    check_final_immediates(rep, CompRel(facts), 'R3.final-immediate')
+    rep.attempt(lambda: check_final_immediates(rep, CompRel(facts), 'R3.final-immediate'))
     have = [m for m in PC_RELATIVE if m in facts.instructions()]
-    encprops.check_layout(rep, facts, have, 'R3.imm-layout')
-    pa = LR.pass_analysis(facts, 'transform_compressible')
-    for r in pa.rows[2:6]:
-        rep.sample(LR.describe_row(r))
+    rep.attempt(encprops.check_layout, rep, facts, have, 'R3.imm-layout')
+
+    def samples():
+        pa = LR.pass_analysis(facts, 'transform_compressible')
+        for r in pa.rows[2:6]:
+            rep.sample(LR.describe_row(r))
+    rep.attempt(samples)
     rep.floor('pass paths accounted', 150)
     rep.floor('label definition sites', 1)
     rep.floor('baking evaluation sites', 1)
